@@ -301,6 +301,57 @@ func VxH19concat() {
 	}
 }
 
+// VxH19group: Concatenator with GroupByTag on a stream that mixes tagged and untagged
+// inputs: the main output holds exactly the untagged inputs, the per-tag output exactly
+// the tagged ones, each once and in arrival order.
+func VxH19group() {
+	n := vxGet("n")
+	wf := vxWF19(1)
+	files := []string{}
+	content := []string{}
+	tagged := []bool{}
+	for i := 0; i < n; i++ {
+		f := "f" + string(rune('0'+i))
+		files = append(files, f)
+		c := "c" + string(rune('0'+i))
+		content = append(content, c)
+		vxFSPutData(f, c)
+		tagged = append(tagged, vxConcreteBool(vxBool("tagged"+string(rune('0'+i)))))
+	}
+	src := NewFileSource(wf, "src", files...)
+	tg := NewMapToTags(wf, "tag", func(ip *scipipe.FileIP) map[string]string {
+		for i, f := range files {
+			if ip.Path() == f && tagged[i] {
+				return map[string]string{"t": "x"}
+			}
+		}
+		return map[string]string{}
+	})
+	tg.In().From(src.Out())
+	cc := NewConcatenator(wf, "cc", "out/all.txt")
+	cc.GroupByTag = "t"
+	cc.In().From(tg.Out())
+	rec := vxNewRecorder(wf, "rec")
+	rec.InPort("in").From(cc.Out())
+	kind := vxRun(func() { wf.Run() })
+	vxAssert(kind == "returned", "C19.concat.run-returns")
+	vxReach("ran")
+	var wantMain, wantTag []string
+	for i := range files {
+		if tagged[i] {
+			wantTag = append(wantTag, content[i])
+		} else {
+			wantMain = append(wantMain, content[i])
+		}
+	}
+	gotMain := vxFSLines("out/all.txt")
+	vxAssert(strings.Join(gotMain, "|") == strings.Join(wantMain, "|"), "C19.concat.untagged-inputs-in-main-output")
+	if len(wantTag) > 0 {
+		gotTag := vxFSLines("out/all.txt.t_x")
+		vxAssert(strings.Join(gotTag, "|") == strings.Join(wantTag, "|"), "C19.concat.tagged-inputs-in-tag-output")
+	}
+}
+
 // VxH19src: sources emit exactly the given / read / matching items, in order.
 func VxH19src() {
 	wf := vxWF19(1)
